@@ -64,7 +64,7 @@ NoRes == [k |-> "none", phase |-> "", killed |-> FALSE, has |-> FALSE, err |-> "
 NoActor == [sp |-> FALSE, pc |-> "None", cap |-> 0, permits |-> 0, mbox |-> <<>>,
             waiters |-> <<>>, granted |-> {}, closed |-> FALSE, term |-> FALSE,
             killed |-> FALSE, idle |-> TRUE, inst |-> 0, cur |-> 0, own |-> FALSE,
-            marker |-> FALSE, runErr |-> FALSE, hop |-> 0, nh |-> 0, jl |-> <<>>,
+            marker |-> FALSE, runErr |-> FALSE, hop |-> 0, nh |-> 0, mcount |-> 0, jl |-> <<>>,
             res |-> NoRes, id |-> 0]
 
 NoOpRec == [own |-> "", kind |-> "", h |-> 0, a |-> "", m |-> 0, dl |-> -1, ph |-> "none",
@@ -126,7 +126,9 @@ Alive(s, a) == ~s.A[a].closed
 Sample(s, a) == [e |-> "Sample", a |-> a,
                  max |-> IF Strong(s, a) = 0 THEN 0 ELSE s.A[a].cap,
                  avail |-> IF Strong(s, a) = 0 \/ s.A[a].closed THEN 0 ELSE s.A[a].permits,
-                 strong |-> Strong(s, a), dlc |-> s.dlc]
+                 strong |-> Strong(s, a), dlc |-> s.dlc,
+                 \* metrics feature: message_count, readable while a strong reference exists
+                 mcnt |-> IF Strong(s, a) = 0 THEN -1 ELSE s.A[a].mcount]
 
 -----------------------------------------------------------------------------
 (* wait-for graph (lib.rs:333-379, actor_ref.rs:252-272) *)
@@ -358,7 +360,7 @@ ExitHook(s, a, dir) ==
        ELSE PanicOut(s, a, "start", 0)
   ELSE IF A.pc = "Handler" THEN
        LET o == A.cur  m == s.O[o].m  v == ReplyVal(m, A.nh) IN
-       IF dir = "ok" THEN
+       IF dir \in {"ok", "slow"} THEN
             LET s1 == IF IsAsk(s, o)
                         THEN (IF s.O[o].rep = "open"
                                 THEN LET t == SetO(s, o, [rep |-> "val", rv |-> v])
@@ -366,11 +368,11 @@ ExitHook(s, a, dir) ==
                                            THEN ClearEdge(t, s.O[o].own) ELSE t
                                 ELSE s)
                         ELSE s
-                 evs == << HExitEv(a, "handler", m, "ok", v) >>
+                 evs == << HExitEv(a, "handler", m, dir, v) >>
                         \o (IF IsAsk(s, o) THEN <<>> ELSE << [e |-> "TellResult", a |-> a, m |-> m] >>)
-            IN  Then(R(SetA(s1, a, [cur |-> 0, jl |-> Append(A.jl, "h")]), evs),
+            IN  Then(R(SetA(s1, a, [cur |-> 0, jl |-> Append(A.jl, "h"), mcount |-> A.mcount + 1]), evs),
                      LAMBDA t : SelectPart(t, a))
-       ELSE PanicOut(s, a, "handler", m)
+       ELSE PanicOut(SetA(s, a, [mcount |-> A.mcount + 1]), a, "handler", m)   \* the metrics guard drops on unwind
   ELSE IF A.pc = "Stop" THEN
        IF dir = "ok" THEN
             LET s1 == SetA(s, a, [jl |-> Append(A.jl, "stop")])
